@@ -106,7 +106,7 @@ Example ht_ws_input :
 Proof. vm_compute. reflexivity. Qed.
 
 Definition names_stems (o : outcome res) : list (str * str) :=
-  match o with Ans (ROk l) => map (fun it => (i_name it, i_stem it)) l | _ => [(#"?", #"?")] end.
+  match o with Ans (ROk l) => map (fun it => (i_name it, i_uri it)) l | _ => [(#"?", #"?")] end.
 
 Definition r0 : range := mkRange (mkPos 0 0) (mkPos 0 0).
 
@@ -159,4 +159,97 @@ Example ht_item_ranges_inside :
 Proof.
   intros it H. rewrite (proj1 ht_ws_prepare) in H. inversion H; subst it. cbn [i_sel i_range].
   unfold inside, pos_le. cbn. lia.
+Qed.
+
+(* ---------- the regression of 6242e0e: a class referred to from another file ---------- *)
+Local Open Scope N_scope.
+(* real parser, text: '; c1\n; c2\nclass aKa\n\nFld : int4\n' *)
+Definition hx_decl : node :=
+  Node KAstRoot [] 0 (mkRange (mkPos 0 0) (mkPos 0 0)) [] [
+    Node KAstComment [99;111;109;109;101;110;116] 0 (mkRange (mkPos 0 0) (mkPos 0 3)) [(9, AS [32;99;49])] [];
+    Node KAstComment [99;111;109;109;101;110;116] 5 (mkRange (mkPos 1 0) (mkPos 1 3)) [(9, AS [32;99;50])] [];
+    Node KAstClass [97;75;97] 10 (mkRange (mkPos 2 0) (mkPos 2 9)) [(1, AT (mkTok 16 (mkRange (mkPos 2 6) (mkPos 2 9)) TIdentifier [97;75;97])); (2, AL [])] [];
+    Node KAstGlobalVariableDeclaration [70;108;100] 21 (mkRange (mkPos 4 0) (mkPos 4 10)) [(1, AT (mkTok 21 (mkRange (mkPos 4 0) (mkPos 4 3)) TIdentifier [70;108;100])); (6, AN 0)] [
+      Node KAstTypeBasic [105;110;116;52] 27 (mkRange (mkPos 4 6) (mkPos 4 10)) [(0, AT (mkTok 27 (mkRange (mkPos 4 6) (mkPos 4 10)) TIdentifier [105;110;116;52]))] []]].
+
+(* real parser, text: 'class aKb (aKa)\nRef : aKa\n' *)
+Definition hx_ref : node :=
+  Node KAstRoot [] 0 (mkRange (mkPos 0 0) (mkPos 0 0)) [] [
+    Node KAstClass [97;75;98] 0 (mkRange (mkPos 0 0) (mkPos 0 15)) [(1, AT (mkTok 6 (mkRange (mkPos 0 6) (mkPos 0 9)) TIdentifier [97;75;98])); (2, AL [(mkTok 11 (mkRange (mkPos 0 11) (mkPos 0 14)) TIdentifier [97;75;97])])] [];
+    Node KAstGlobalVariableDeclaration [82;101;102] 16 (mkRange (mkPos 1 0) (mkPos 1 9)) [(1, AT (mkTok 16 (mkRange (mkPos 1 0) (mkPos 1 3)) TIdentifier [82;101;102])); (6, AN 0)] [
+      Node KAstTypeBasic [97;75;97] 22 (mkRange (mkPos 1 6) (mkPos 1 9)) [(0, AT (mkTok 22 (mkRange (mkPos 1 6) (mkPos 1 9)) TIdentifier [97;75;97]))] []]].
+
+
+Local Open Scope nat_scope.
+Definition hx_ws : wsT := [ (#"aKa", hx_decl); (#"aKb", hx_ref) ].
+
+(* aKb.god line 1 is `Ref : aKa`; the class symbol aKa lives in aKa.god's root table (reached through the parent
+   chain), its header on line 2 below two comment lines.  The old rule names aKb.god -- whose tree ends on
+   line 1 -- with a selection range on line 2; the repaired rule names aKa.god, and the ranges are those of
+   the header node of aKa.god's own tree *)
+Theorem old_class_item_uri_refuted :
+  exists ws dA dB a,
+    In dA ws /\ In dB ws /\ distinct_stems ws /\ named_by_stem ws /\ Forall (fun d => regular (snd d)) ws /\
+    find_in (root_of dA) #"aKa" = Some a /\ a_kind a = KClass /\
+    (let it := class_item_with true ws (fst dB) (root_of dA) a in
+     i_uri it = fst dB /\ below_line (snd dB) (pline (rstart (i_sel it))) = true) /\
+    (let it := class_item_with false ws (fst dB) (root_of dA) a in
+     i_uri it = fst dA /\
+     exists n, In n (visit_seq false (snd dA)) /\ i_sel it = name_range (snd n) /\ i_range it = nrange (snd n)).
+Proof.
+  exists hx_ws, (#"aKa", hx_decl), (#"aKb", hx_ref). eexists.
+  split; [left; reflexivity|]. split; [right; left; reflexivity|].
+  split; [vm_compute; repeat constructor; cbn; intuition discriminate|].
+  split.
+  { intros d c p Hd He. cbn [hx_ws In] in Hd.
+    repeat (destruct Hd as [Hd|Hd]; [subst d; vm_compute in He; inversion He; subst; vm_compute; reflexivity|]). contradiction. }
+  split; [repeat constructor; apply regularb_ok; vm_compute; reflexivity|].
+  split; [vm_compute; reflexivity|]. split; [reflexivity|]. split.
+  - split; vm_compute; reflexivity.
+  - split; [vm_compute; reflexivity|]. exists (top (nth 2 (nchildren hx_decl) hx_decl)).
+    split; [vm_compute; right; right; right; left; reflexivity|split; vm_compute; reflexivity].
+Qed.
+
+(* the hypotheses of C13_item_uri_tree are satisfiable (real dumps), with an item prepared *)
+Example ht_item_uri_hypotheses :
+  In (#"aKb", ht_kb) ht_ws /\ distinct_stems ht_ws /\ named_by_stem ht_ws /\ regular ht_kb /\
+  exists it, prepare ht_ws (#"aKb", ht_kb) (mkPos 0 7) = Ans (ROk [it]) /\ i_uri it = #"aKb".
+Proof.
+  split; [right; left; reflexivity|]. split; [vm_compute; repeat constructor; cbn; intuition discriminate|].
+  split; [apply ht_ws_hypotheses|]. split; [apply regularb_ok; vm_compute; reflexivity|].
+  eexists. split; [apply (proj1 ht_ws_prepare)|reflexivity].
+Qed.
+
+(* the NodeWf premise of hier_item_ranges / C13_item_uri_tree holds on the real dumps (C08's predicate, 10 lines) *)
+Ltac wf1 :=
+  unfold NodeWf, SelOK, NameInside, range_wf, lines_le, inside, pos_le;
+  cbn [nrange nkind nchildren nattrs attr_tok attr rstart rend pline pcol trange K_ident N.eqb Pos.eqb];
+  repeat split; intros;
+  repeat match goal with
+         | H : Some _ = Some _ |- _ => inversion H; subst; clear H
+         | H : None = Some _ |- _ => discriminate H
+         | H : _ \/ _ |- _ => destruct H; try discriminate
+         end;
+  cbn [rstart rend pline pcol trange];
+  try discriminate; try lia.
+
+Local Open Scope N_scope.
+Lemma ht_ka_wf : Forall_nodes (NodeWf 10) ht_ka.
+Proof. unfold ht_ka. cbn [Forall_nodes]. repeat match goal with |- _ /\ _ => split | |- True => exact I end; wf1. Qed.
+Lemma ht_kb_wf : Forall_nodes (NodeWf 10) ht_kb.
+Proof. unfold ht_kb. cbn [Forall_nodes]. repeat match goal with |- _ /\ _ => split | |- True => exact I end; wf1. Qed.
+Lemma ht_kc_wf : Forall_nodes (NodeWf 10) ht_kc.
+Proof. unfold ht_kc. cbn [Forall_nodes]. repeat match goal with |- _ /\ _ => split | |- True => exact I end; wf1. Qed.
+
+Example ht_ws_nodewf : Forall (fun d => Forall_nodes (NodeWf 10) (snd d)) ht_ws.
+Proof.
+  constructor; [exact ht_ka_wf|]. constructor; [exact ht_kb_wf|]. constructor; [exact ht_kc_wf|constructor].
+Qed.
+
+(* ... so the conclusion `inside` of hier_item_ranges is obtained THROUGH the theorem on the real trees *)
+Example ht_item_ranges_via_nodewf :
+  forall p it, prepare ht_ws (#"aKb", ht_kb) p = Ans (ROk [it]) -> inside (i_sel it) (i_range it).
+Proof.
+  intros p it H. destruct (hier_item_ranges ht_ws (#"aKb", ht_kb) p it H) as (n & _ & _ & _ & _ & Hw).
+  apply (Hw 10). exact ht_kb_wf.
 Qed.
